@@ -50,7 +50,7 @@ OwnPods(s, d) == { p \in Pods(s) : p.ns = d.ns /\
 \* Role of replica set r as the ERS reconcile derives it from the owner's status.
 Role(d, r) == IF d.activeName = "" THEN "unknown"
               ELSE IF d.activeName = r.name THEN "active"
-              ELSE IF d.hasCanary /\ d.canaryRS = r.id THEN "canary"
+              ELSE IF d.hasCanary /\ d.canaryRS = r.id /\ d.strat.canary THEN "canary"   \* (no canary strategy: no canary to manage)
               ELSE "unknown"
 
 CNodes(d) == IF d.hasCanary THEN SeqToSet(d.cNodes) ELSE {}
@@ -65,10 +65,10 @@ PodsOn(s, d, n) == { p \in OwnPods(s, d) : p.node = n }
 Older(p, q) == (p.sched /\ ~q.sched) \/ (p.sched = q.sched /\ p.born < q.born)
 KeptCandidates(S) == { p \in S : \A q \in S : ~Older(q, p) }
 
-\* nodes the replica set r of EDS d targets in role `role'
+\* nodes the replica set r of EDS d targets in role `role': the active one every fit node but the canary nodes, the
+\* canary one the fit canary nodes
 Targeted(s, d, r, role) ==
-    { n \in NodeNames(s) : Fits(s, n, r.tmpl) /\ ~(role = "active" /\ n \in CNodes(d)) } \
-    (IF role = "active" THEN CNodes(d) ELSE {})
+    { n \in NodeNames(s) : Fits(s, n, r.tmpl) /\ (role = "active" => n \notin CNodes(d)) /\ (role = "canary" => n \in CNodes(d)) }
 
 Available(p) == p.ready
 =============================================================================
